@@ -50,9 +50,16 @@ def main(argv: list) -> int:
     try:
         repo = Repo(repo_root)
         mod.run(repo, chk, thorough)
-        if thorough and hasattr(mod, 'selftest') and '--no-selftest' not in argv and repo_root == '/repo':
-            from sa import selftest
-            selftest.run_for(prop, chk)
+        if thorough and '--no-selftest' not in argv:
+            # The two-way self-test judges the checker, so it only makes sense on a tree the rules accept: on a tree with
+            # violations every variant would inherit them.
+            unlisted = [o for o in chk.obligations if not o.ok and not any(
+                e.get('rule') == o.rule and e.get('instance') == o.key for e in chk._known())]
+            if unlisted or chk.errors:
+                chk.note('self-test skipped: the tree under analysis has violations / analysis errors of its own')
+            else:
+                from sa import selftest
+                selftest.run_for(prop, chk)
     except AnalysisError as e:
         chk.error(str(e))
     except Exception:
